@@ -5,7 +5,14 @@ objects, every valid operation of the model (which mirrors static_vector / inpla
 loop by loop, see Tetl/C01/Model.lean) returns `.ok` — no read or write outside the live elements,
 no capacity overflow, no truncation of the narrow size field, no exhausted loop bound — and yields
 exactly the contents, iterator offset, count, pointer and comparison results of the list semantics
-in Tetl/C01/Spec.lean.  Helper lemmas live in Lemmas / Rotate / Members* / System / History / Refine*.
+in Tetl/C01/Spec.lean.  Whether a history is valid is decided from the spec state (`Spec.validHist`), not by
+running the model; that the model never fails is a conclusion.  Not covered by a theorem, by the nature of the
+model (objects are separate immutable lists, aliasing cannot be expressed): "a copy is independent of its
+source" — that clause is observed by the harness (copy, change the source, change the copy, dump both); the two
+`…_structural` statements at the end only record what the representation gives for free.  inplace_vector: only
+the members etl::inplace_vector has (`supports .ipv`); the rest of std::inplace_vector's interface is the known
+finding F-C01-inplace-vector-missing-members (`ipv_step_partial`, `ipv_missing_counterexample`).
+Helper lemmas live in Lemmas / Rotate / Members* / System / History / Refine*.
 -/
 import TetlProofs.C01.Refine2
 namespace Tetl.C01.Props
@@ -99,6 +106,18 @@ theorem step_refines (s : Sys) (sp : Spec.SSys) (k : Nat) (op : Op)
       ∧ Rel s' (Spec.step sp k op).1 ∧ (∀ o', (Spec.step sp k op).2 = some o' → o = o') :=
   step_refines_all s sp k op hinv hrel hv
 
+/-- the same with the precondition read off the spec state (`Spec.valid`: what the standard's book-keeping
+    knows; nothing is assumed about the contents of an object it leaves unspecified) -/
+theorem step_refines_spec (s : Sys) (sp : Spec.SSys) (k : Nat) (op : Op)
+    (hinv : Inv s) (hrel : Rel s sp) (hv : Spec.valid s.ty sp k op = true) :
+    ∃ s' o, step s k op = .ok (s', o) ∧ Inv s' ∧ s'.ty = s.ty ∧ s'.cap = s.cap ∧ s'.kind = s.kind
+      ∧ s'.objs.length = s.objs.length
+      ∧ Rel s' (Spec.step sp k op).1 ∧ (∀ o', (Spec.step sp k op).2 = some o' → o = o') :=
+  step_refines s sp k op hinv hrel (valid_of_spec hrel k op hv)
+
+example : Spec.valid .sv ((Spec.SSys.init 4).setObj 1 none) 1 (.resize 2) = true
+    ∧ Spec.valid .sv ((Spec.SSys.init 4).setObj 1 none) 1 .pop = false := by decide
+
 theorem init_inv (ty : Ty) (cap : Nat) (kind : Kind) (hc : cap < 2 ^ 64) : Inv (Sys.init ty cap kind) := by
   refine ⟨hc, ?_⟩
   intro d hd
@@ -116,10 +135,13 @@ theorem init_rel (ty : Ty) (cap : Nat) (kind : Kind) : Rel (Sys.init ty cap kind
 example : valid (Sys.init .sv 4 .nt) 0 (.insertFill 0 3 7) = true := by decide
 example : valid ((Sys.init .sv 4 .nt).setObj 1 [1, 2, 3]) 1 (.swap 0) = true := by decide
 
-/-- **Histories.**  By induction over the operation list: a history all of whose steps are valid never
-    makes the model fail, keeps the invariant and the capacity, and every result and every content
-    it produces is the one the list semantics of the standard prescribes. -/
-theorem history_refines : ∀ (ops : List (Nat × Op)) (s : Sys) (sp : Spec.SSys),
+/-- **Histories, validity judged in the model state.**  By induction over the operation list: if every
+    step that is reached meets its precondition in the model state (`validRun`; nothing is assumed about
+    whether a step succeeds), the model never fails, keeps the invariant and the capacity, and every
+    result and every content it produces is the one the list semantics of the standard prescribes.
+    This form also covers histories that keep using a moved-from object with the contents etl leaves
+    in it (which the standard does not specify). -/
+theorem history_refines_modelstate : ∀ (ops : List (Nat × Op)) (s : Sys) (sp : Spec.SSys),
     Inv s → Rel s sp → validRun s ops = true →
     ∃ s' outs, run s ops = .ok (s', outs) ∧ Inv s' ∧ s'.cap = s.cap ∧ s'.ty = s.ty
       ∧ Rel s' (Spec.run sp ops).1 ∧ OutsAgree outs (Spec.run sp ops).2 := by
@@ -143,25 +165,76 @@ theorem history_refines : ∀ (ops : List (Nat × Op)) (s : Sys) (sp : Spec.SSys
     · simp only [specRun_cons, outsAgree_cons]
       exact ⟨hout1, hout2⟩
 
+/-- a history that is valid by the standard's book-keeping (`Spec.validHist`: sizes and positions of the
+    *spec* state; for an object in a valid-but-unspecified state only operations without a precondition
+    on its contents) is valid in every model state related to the spec state -/
+theorem validHist_validRun : ∀ (ops : List (Nat × Op)) (s : Sys) (sp : Spec.SSys),
+    Inv s → Rel s sp → Spec.validHist s.ty sp ops = true → validRun s ops = true := by
+  intro ops
+  induction ops with
+  | nil => intros; rfl
+  | cons kop rest ih =>
+    intro s sp hinv hrel hv
+    obtain ⟨k, op⟩ := kop
+    simp only [validHist_cons, Bool.and_eq_true] at hv
+    obtain ⟨hv1, hv2⟩ := hv
+    have hv1' := valid_of_spec hrel k op hv1
+    obtain ⟨s1, o1, hstep, hinv1, hty1, _, _, _, hrel1, _⟩ := step_refines s sp k op hinv hrel hv1'
+    simp only [validRun_cons, Bool.and_eq_true, hstep]
+    exact ⟨hv1', ih s1 (Spec.step sp k op).1 hinv1 hrel1 (by rw [hty1]; exact hv2)⟩
+
+/-- **Histories.**  The property's statement: for every history all of whose steps are valid — no step
+    asks for more than the capacity, every position is valid, judged step by step on the state the
+    *standard* prescribes (`Spec.validHist`; the model is not consulted) — the model of the tetl container
+    never fails (no access outside the live elements, no capacity or size-type overflow, no missing
+    member), keeps `size ≤ capacity` and the capacity itself, and every result and every content it
+    produces is the one the list semantics of the standard prescribes. -/
+theorem history_refines (ops : List (Nat × Op)) (s : Sys) (sp : Spec.SSys)
+    (hinv : Inv s) (hrel : Rel s sp) (hv : Spec.validHist s.ty sp ops = true) :
+    ∃ s' outs, run s ops = .ok (s', outs) ∧ Inv s' ∧ s'.cap = s.cap ∧ s'.ty = s.ty
+      ∧ Rel s' (Spec.run sp ops).1 ∧ OutsAgree outs (Spec.run sp ops).2 :=
+  history_refines_modelstate ops s sp hinv hrel (validHist_validRun ops s sp hinv hrel hv)
+
 /-- from the initial state (four empty objects) of any type, capacity and element kind -/
 theorem history_refines_init (ty : Ty) (cap : Nat) (kind : Kind) (hc : cap < 2 ^ 64) (ops : List (Nat × Op))
-    (hv : validRun (Sys.init ty cap kind) ops = true) :
+    (hv : Spec.validHist ty (Spec.SSys.init cap) ops = true) :
     ∃ s' outs, run (Sys.init ty cap kind) ops = .ok (s', outs) ∧ Inv s' ∧ s'.cap = cap
       ∧ Rel s' (Spec.run (Spec.SSys.init cap) ops).1 ∧ OutsAgree outs (Spec.run (Spec.SSys.init cap) ops).2 := by
   obtain ⟨s', outs, h1, h2, h3, _, h5, h6⟩ :=
     history_refines ops _ _ (init_inv ty cap kind hc) (init_rel ty cap kind) hv
   exact ⟨s', outs, h1, h2, h3, h5, h6⟩
 
-example : validRun (Sys.init .sv 3 .nt)
+/-- … and with validity judged in the model state -/
+theorem history_refines_modelstate_init (ty : Ty) (cap : Nat) (kind : Kind) (hc : cap < 2 ^ 64) (ops : List (Nat × Op))
+    (hv : validRun (Sys.init ty cap kind) ops = true) :
+    ∃ s' outs, run (Sys.init ty cap kind) ops = .ok (s', outs) ∧ Inv s' ∧ s'.cap = cap
+      ∧ Rel s' (Spec.run (Spec.SSys.init cap) ops).1 ∧ OutsAgree outs (Spec.run (Spec.SSys.init cap) ops).2 := by
+  obtain ⟨s', outs, h1, h2, h3, _, h5, h6⟩ :=
+    history_refines_modelstate ops _ _ (init_inv ty cap kind hc) (init_rel ty cap kind) hv
+  exact ⟨s', outs, h1, h2, h3, h5, h6⟩
+
+example : Spec.validHist .sv (Spec.SSys.init 3)
     [(0, .push 0 1), (0, .insert1 1 0 2), (1, .copyCtor 0), (0, .eraseIf 2 0), (1, .cmp 0), (2, .moveCtor 1),
      (1, .clear), (0, .swap 2)] = true := by decide
-example : validRun (Sys.init .ipv 1 .triv) [(0, .tryPush 0 5), (0, .tryPush 1 6), (1, .moveCtor 0), (0, .pop)] = true := by
+example : Spec.validHist .ipv (Spec.SSys.init 1) [(0, .tryPush 0 5), (0, .tryPush 1 6), (1, .moveCtor 0), (0, .clear),
+     (0, .unchecked 0 3), (0, .pop)] = true := by
   decide
+-- a moved-from object has no specified size: `pop` on it is not a valid step by the standard's book-keeping
+-- (test on one sample), although the model state knows what etl left there
+example : Spec.validHist .sv (Spec.SSys.init 3) [(0, .push 0 1), (1, .moveCtor 0), (0, .pop)] = false := by decide
+example : validRun (Sys.init .sv 3 .nt) [(0, .push 0 1), (1, .moveCtor 0), (0, .pop)] = true := by decide
 
-/-! ## copies are independent -/
+/-! ## structural facts of the model (no evidence for "a copy is independent of its source")
 
-/-- an operation on one object does not touch any other object -/
-theorem unary_frame (s s' : Sys) (k : Nat) (op : Op) (o : Out) (hb : isBinary op = none)
+The model keeps the four objects as four separate immutable lists; `Sys.setObj k` replaces entry `k`.
+Sharing of storage between a copy and its source cannot be expressed in it, so the two statements below
+hold for *any* step function of this shape — they say that the model has no cross-object writes other
+than the ones spelled out in `step`, not that the C++ copy constructor makes a deep copy.  The
+independence clause of the property is checked on the real code by the harness (copy; change the source;
+change the copy; all four objects are dumped after every line). -/
+
+/-- (structural) a single-object operation of the model writes object `k` only -/
+theorem unary_frame_structural (s s' : Sys) (k : Nat) (op : Op) (o : Out) (hb : isBinary op = none)
     (h : step s k op = .ok (s', o)) (i : Nat) (hi : i ≠ k) : s'.objs[i]? = s.objs[i]? := by
   rw [step_unary s k op hb] at h
   split at h
@@ -189,9 +262,10 @@ theorem unary_frame (s s' : Sys) (k : Nat) (op : Op) (o : Out) (hb : isBinary op
         | error e => rw [h2] at h; cases h
         | ok r => rw [h2] at h; exact fin r h
 
-/-- copy construction gives object `k` the value of object `j` and leaves `j` and every other object as
-    they were; by `unary_frame` later changes of either do not reach the other -/
-theorem copy_independent (s : Sys) (k j : Nat) (hinv : Inv s) (hv : valid s k (.copyCtor j) = true) :
+/-- copy construction never fails and gives object `k` the value of object `j` (this part has content: the
+    copy constructor is `insert(begin(), other.begin(), other.end())` / `uninitialized_copy`); that `j` and
+    every other object stay as they were is structural, see above -/
+theorem copy_value_frame_structural (s : Sys) (k j : Nat) (hinv : Inv s) (hv : valid s k (.copyCtor j) = true) :
     ∃ s', step s k (.copyCtor j) = .ok (s', .unit) ∧ s'.objs[k]? = s.objs[j]?
       ∧ ∀ i, i ≠ k → s'.objs[i]? = s.objs[i]? := by
   have hv' := hv
@@ -237,6 +311,56 @@ example : ¬ (Ty.sv = .ipv ∧ (4 : Nat) ≠ 0 ∧ Init.dflt 170 ≠ .value) := 
 
 /-- the excluded class contains a failing input: storage bytes 0xAA give `size() = 170` at capacity 4 -/
 theorem initSize_counterexample : initSize .ipv 4 (.dflt 0xAA) = 170 ∧ (170 : Nat) > 4 := by decide
+
+/-- **inplace_vector, what is proved and what is not** (known finding
+    F-C01-inplace-vector-missing-members).  std::inplace_vector offers every operation of the property's list;
+    for an operation whose standard precondition holds in the spec state the model of etl::inplace_vector
+    refines the spec *unless* the operation is in the excluded class `supports .ipv op = false`
+    (etl::inplace_vector has no such member). -/
+theorem ipv_step_partial (s : Sys) (sp : Spec.SSys) (k : Nat) (op : Op)
+    (hinv : Inv s) (hrel : Rel s sp) (ht : s.ty = .ipv) (hpre : Spec.validPre sp k op = true)
+    (hcls : ¬ (supports .ipv op = false)) :
+    ∃ s' o, step s k op = .ok (s', o) ∧ Inv s' ∧ s'.ty = s.ty ∧ s'.cap = s.cap ∧ s'.kind = s.kind
+      ∧ s'.objs.length = s.objs.length
+      ∧ Rel s' (Spec.step sp k op).1 ∧ (∀ o', (Spec.step sp k op).2 = some o' → o = o') := by
+  refine step_refines s sp k op hinv hrel (valid_of_spec hrel k op ?_)
+  simp only [Spec.valid, ht, hpre, Bool.and_true]
+  simpa using hcls
+
+example : Spec.validPre (Spec.SSys.init 4) 0 (.tryPush 0 7) = true ∧ ¬ (supports .ipv (.tryPush 0 7) = false) := by decide
+
+/-- the excluded class is not empty and the exclusion is needed: `insert(begin(), 2, 7)` into an empty
+    vector of capacity 4 meets the standard precondition, the standard prescribes `[7, 7]` and the
+    iterator `begin()`, the model of etl::inplace_vector has no such member -/
+theorem ipv_missing_counterexample :
+    Spec.validPre (Spec.SSys.init 4) 0 (.insertFill 0 2 7) = true
+      ∧ supports .ipv (.insertFill 0 2 7) = false
+      ∧ step (Sys.init .ipv 4 .triv) 0 (.insertFill 0 2 7) = .error (.pre "the type has no such member")
+      ∧ (Spec.step (Spec.SSys.init 4) 0 (.insertFill 0 2 7)).2 = some (.it 0)
+      ∧ Spec.getObj (Spec.step (Spec.SSys.init 4) 0 (.insertFill 0 2 7)).1 0 = some [7, 7] :=
+  ⟨by decide, rfl, rfl, by decide, by decide⟩
+
+/-- the excluded class, member by member: everything except `try_*`, `unchecked_*`, `pop_back`, `clear`,
+    copy and move construction (and the observers) -/
+theorem ipv_missing_members :
+    (∀ ov x, supports .ipv (.push ov x) = false) ∧ (∀ ov p x, supports .ipv (.insert1 ov p x) = false)
+      ∧ (∀ p n x, supports .ipv (.insertFill p n x) = false) ∧ (∀ p xs, supports .ipv (.insertRange p xs) = false)
+      ∧ (∀ p xs, supports .ipv (.moveInsert p xs) = false) ∧ (∀ p, supports .ipv (.erase p) = false)
+      ∧ (∀ f l, supports .ipv (.eraseRange f l) = false) ∧ (∀ n, supports .ipv (.resize n) = false)
+      ∧ (∀ n x, supports .ipv (.resizeVal n x) = false) ∧ (∀ n x, supports .ipv (.assignFill n x) = false)
+      ∧ (∀ xs, supports .ipv (.assignRange xs) = false) ∧ (∀ n, supports .ipv (.ctorN n) = false)
+      ∧ (∀ n x, supports .ipv (.ctorNVal n x) = false) ∧ (∀ xs, supports .ipv (.ctorRange xs) = false)
+      ∧ (∀ j, supports .ipv (.copyAssign j) = false) ∧ (∀ j, supports .ipv (.moveAssign j) = false)
+      ∧ (∀ j, supports .ipv (.swap j) = false) ∧ (∀ x, supports .ipv (.eraseVal x) = false)
+      ∧ (∀ m r, supports .ipv (.eraseIf m r) = false) ∧ (∀ j, supports .ipv (.cmp j) = false) := by
+  refine ⟨?_, ?_, ?_, ?_, ?_, ?_, ?_, ?_, ?_, ?_, ?_, ?_, ?_, ?_, ?_, ?_, ?_, ?_, ?_, ?_⟩ <;> intros <;> rfl
+
+/-- … and the members it has -/
+theorem ipv_present_members :
+    (∀ ov x, supports .ipv (.tryPush ov x) = true) ∧ (∀ ov x, supports .ipv (.unchecked ov x) = true)
+      ∧ supports .ipv .pop = true ∧ supports .ipv .clear = true ∧ (∀ j, supports .ipv (.copyCtor j) = true)
+      ∧ (∀ j, supports .ipv (.moveCtor j) = true) ∧ supports .ipv .dump = true := by
+  refine ⟨?_, ?_, rfl, rfl, ?_, ?_, rfl⟩ <;> intros <;> rfl
 
 /-- inplace_vector offers no assignment (known finding F-C01-inplace-vector-not-assignable): the
     histories of that type contain none -/
